@@ -1,13 +1,21 @@
-"""C11 — decided per scheduling policy; see _planner_props.py and harness/planners/."""
+"""C11 — decided per scheduling policy; see _planner_props.py and harness/planners/.  Every decision of an end-to-end run
+of the real Simulator under the real ILP / TetriSched planners is a scheduler input the simulator really reached: the
+run-level clauses are judged by _e2e_common.planner_decision_oracle (docs/e2e_planners.md)."""
+import json
+
 from harness import common
+from harness.suites import _e2e_common as e2e
 from harness.suites import _planner_props as pp
 
-TECHNIQUE = "Lean 4 theorems over generated constraint systems / policy models; model tied to /repo by comparing the captured solver model and returned Placements on generated scheduler inputs"
+TECHNIQUE = "Lean 4 theorems over generated constraint systems / policy models; model tied to /repo by comparing the captured solver model and returned Placements on generated scheduler inputs; decisions of end-to-end runs under the real planners judged by run-level oracles"
 
 
 def run(chk: common.Check):
     pp.run_prop(chk, "C11")
+    e2e.run_planner_pass(chk, "C11", n_quick=160, n_thorough=1500)
 
 
 def replay(path) -> int:
+    if json.load(open(path)).get("suite") == "sim":
+        return e2e.replay("C11", path)
     return pp.replay("C11", path)
